@@ -47,6 +47,13 @@ Definition conc_trace_ok (x : sx) : sx :=
       | None => false
       end.
 
+(** diagnosis of the same input: [accepted-events; rule] (rule 0 = accepted, see [Locks.v]) *)
+Definition conc_trace_diag (x : sx) : sx :=
+  match decode_trace (asL x) with
+  | Some tr => let d := mon_diag init_state 0 tr in SL [sxN (N.of_nat (fst d)); sxN (N.of_nat (snd d))]
+  | None => SL [sxN 0; sxN 9]
+  end.
+
 (** the discipline check of the nine transcribed operations (constant input) *)
 Definition conc_progs_checked (x : sx) : sx :=
   sxB (forallb (check h0 gh0) all_progs).
